@@ -10,7 +10,6 @@ import (
 	"verifharness/world"
 )
 
-
 func TestSmoke(t *testing.T) {
 	objs := []*world.Obj{
 		{Kind: world.KIngressClass, Name: "haproxy", Controller: world.ControllerName},
